@@ -6,6 +6,8 @@ ALL = ["C%02d" % i for i in range(1, 21)]
 BASE_OFF = "cd /repo && env -u ASCMHL_VERIF /venv/bin/python -m pytest -ra -q -p no:cacheprovider --timeout=900 --continue-on-collection-errors"
 T = "in-process CliRunner on tmpfs as accelerator, every alarm re-run in one fresh subprocess per command; CPython, hashlib, xxhash, lxml/libxml2 trusted; bounds and alphabets as listed in the evidence file"
 CHECKS = {
+ "C18": ("E1", "model_checking", "explicit-state BFS over flat histories on the real code; flatten + verify -pl evaluated as an invariant in every state",
+         "Every flat history reachable within the bound by creates with changing format sets, partial -sf generations and alter/restore/add/remove edits is flattened; the packing list is compared with the summary computed from the on-disk manifests by the independent reader, the source tree is compared byte-wise, and verify -pl is run on the tree as it is and after tampering with each file.", "4 C18"),
  "C17": ("E1", "model_checking", "bounded-exhaustive exploration: sealed base x every rename assignment x command sequences on the real code",
          "For a sealed tree every assignment of each file to {stay, rename, move, move+rename, (move into a new folder)} is applied, with one/two-generation and nested histories, equal and different formats, an unrelated new file, and chained renames over 2-3 generations; plain create, create -dr, the follow-up verify/diff/create and verify after altering each renamed file are executed and judged.", "4 C17"),
  "C12": ("E1", "model_checking", "explicit-state BFS of the real file-system state graph with audit-event observation, own pattern matcher + reference directory hashes as oracle",
